@@ -124,6 +124,7 @@ Proof.
     + constructor.
     + intros ? [].
     + intros s Hs. cbn in Hs. lia.
+    + intros _ s Hs. cbn in Hs. lia.
 Qed.
 
 Lemma wf_new : wf graph_new.
